@@ -164,6 +164,62 @@ def predictor_job(job):
     return {"n": n, "bad": bad, "nt": nt, "ts": len(ts)}
 
 
+def cli_job(rxns):
+    """`python -m synrbl run --min-confidence t` (argparse entry, in process): the output file
+    is read back; thresholds = every confidence as it is printed in the t=0 output file (and
+    its 3-decimal form).  A row is solved exactly when the confidence the file reports is at
+    least t; the reported confidence does not depend on t."""
+    import contextlib
+    import csv
+    import io
+    import os
+    import shutil
+    import tempfile
+
+    import pandas as pd
+    import synrbl.SynCmd as cmd
+
+    d = tempfile.mkdtemp(prefix="c13cli_", dir="/dev/shm" if os.path.isdir("/dev/shm") else None)
+    bad, n = [], 0
+    try:
+        src = os.path.join(d, "in.csv")
+        with open(src, "w", newline="") as f:
+            w = csv.writer(f)
+            w.writerow(["reaction"])
+            for r in rxns:
+                w.writerow([r])
+
+        def run_cli(t):
+            dst = os.path.join(d, "out_{}.csv".format(repr(t)))
+            sink = io.StringIO()
+            with contextlib.redirect_stderr(sink), contextlib.redirect_stdout(sink):
+                args = cmd.setup_argparser().parse_args(["run", src, "-o", dst, "-p", "1", "--min-confidence", repr(t)])
+                args.func(args)
+            return pd.read_csv(dst).to_dict("records")
+
+        base = run_cli(0.0)
+        confs = sorted({float(r["confidence"]) for r in base if r.get("solved_by") == "mcs-based" and r["confidence"] == r["confidence"]})
+        ts = sorted({t for c in confs for t in (c, round(c, 3)) if 0 <= t <= 1})
+        for t in ts:
+            rows = run_cli(t)
+            if len(rows) != len(base):
+                bad.append({"key": ["cli", "row-count"], "what": "CLI run at --min-confidence {!r} wrote {} rows".format(t, len(rows)), "t": t})
+                continue
+            for i, (b0, r) in enumerate(zip(base, rows)):
+                n += 1
+                if b0.get("solved_by") != "mcs-based":
+                    continue
+                c = float(r["confidence"])
+                if c != float(b0["confidence"]):
+                    bad.append({"key": ["cli", "confidence-depends-on-threshold"], "what": "row {}: confidence {} at t={!r}, {} at t=0".format(i, c, t, b0["confidence"]), "t": t})
+                if bool(r["solved"]) != (c >= t):
+                    bad.append({"key": ["cli", "solved-iff-confidence>=t"],
+                                "what": "CLI --min-confidence {!r}: row {} ({}) reports confidence {!r} and solved={}".format(t, i, rxns[i], c, r["solved"]), "t": t})
+        return {"n": n, "bad": bad[:6], "ts": len(ts)}
+    finally:
+        shutil.rmtree(d, ignore_errors=True)
+
+
 def run(tier, seed):
     res = Result("exploration")
     rxns = pf.dedupe(MCS_SET + pf.HAND)
@@ -184,7 +240,13 @@ def run(tier, seed):
         src = pf.dedupe(pf.rxn_universe(pf.A01[:8], 2))
     pj = [{"rxns": src[i:i + 25], "wide": True} for i in range(0, len(src), 25)]
     r2 = pmap("checks.c13:predictor_job", pj, chunk=1, seed=seed, timeout=7200)
+    cli_batches = [MCS_SET[i:i + 5] for i in range(0, len(MCS_SET) if tier == "thorough" else 10, 5)]
+    r3 = pmap("checks.c13:cli_job", cli_batches, chunk=1, seed=seed, timeout=7200)
+    for b, x in zip(cli_batches, r3):
+        for v in x["bad"]:
+            res.add(Violation("cli", {"rxns": b, "t": v["t"]}, None, None, v["key"], v["what"]))
     n = nt = 0
+    n += sum(x["n"] for x in r3)
     for r in list(r1) + list(r2):
         n += r["n"]
         nt += r["nt"]
@@ -198,7 +260,7 @@ def run(tier, seed):
         "rule": "pipeline level: {} reactions x {} thresholds ({{0,0.5,1}} + every observed confidence, both float "
                 "neighbours{}), each row compared with its t=0 row; predictor level: rows captured at "
                 "ConfidencePredictor.predict from real runs over {} reactions, predict() re-executed for the complete "
-                "per-batch threshold set.  Non-trivial = (MCS-solved row, threshold) pairs.".format(
+                "per-batch threshold set; command line: --min-confidence at every confidence printed in the output file.  Non-trivial = (MCS-solved row, threshold) pairs.".format(
                     len(rxns), len(ts), ", c+-1e-3" if tier == "thorough" else "", len(src)),
         "samples": [{"rxn": rxns[0], "thresholds": ts[:8]}, {"confidences": confs}],
         "thresholds": len(ts),
@@ -214,6 +276,9 @@ def run(tier, seed):
 
 def replay(v):
     c = v.case
+    if v.sub == "cli":
+        x = cli_job(c["rxns"])
+        return [Violation("cli", c, None, None, b["key"], b["what"]) for b in x["bad"] if b["key"] == v.key][:1]
     if c.get("level") == "predictor":
         r = predictor_job({"rxns": c["rxns"], "wide": True})
     else:
